@@ -4,6 +4,7 @@ from __future__ import annotations
 
 from abc import ABC
 from contextlib import suppress
+from copy import copy
 from functools import partial
 from typing import TYPE_CHECKING
 from typing import Awaitable
@@ -68,9 +69,29 @@ class CachingLoaderMixin(ABC, _CachingLoaderProtocol):
         )
         self.namespace_key = namespace_key
 
+    @staticmethod
+    def _bind_globals(
+        env: Environment,
+        cached_template: Template,
+        globals: Mapping[str, object] | None,  # noqa: A002
+    ) -> Template:
+        """Return _cached_template_ bound to the caller's globals.
+
+        The cached instance is shared by every caller, so it is never mutated.
+        Unless neither the caller nor the cached template has any globals, a
+        shallow copy bound to the caller's globals is returned instead.
+        """
+        global_data = env.make_globals(globals)
+        if not global_data and not cached_template.global_data:
+            return cached_template
+
+        template = copy(cached_template)
+        template.global_data = global_data
+        return template
+
     def _check_cache(
         self,
-        env: Environment,  # noqa: ARG002
+        env: Environment,
         cache_key: str,
         globals: Mapping[str, object] | None,  # noqa: A002
         load_func: Callable[[], Template],
@@ -87,13 +108,11 @@ class CachingLoaderMixin(ABC, _CachingLoaderProtocol):
             self.cache[cache_key] = template
             return template
 
-        if globals:
-            cached_template.global_data = globals
-        return cached_template
+        return self._bind_globals(env, cached_template, globals)
 
     async def _check_cache_async(
         self,
-        env: Environment,  # noqa: ARG002
+        env: Environment,
         cache_key: str,
         globals: Mapping[str, object] | None,  # noqa: A002
         load_func: Callable[[], Awaitable[Template]],
@@ -110,9 +129,7 @@ class CachingLoaderMixin(ABC, _CachingLoaderProtocol):
             self.cache[cache_key] = template
             return template
 
-        if globals:
-            cached_template.global_data = globals
-        return cached_template
+        return self._bind_globals(env, cached_template, globals)
 
     def load(
         self,
